@@ -467,7 +467,24 @@ func c13RunCase(c *Ctx, or *Oracle, cs *c13Case) *c13Fail {
 	} else {
 		want := c13Spec(cs)
 		model := or.Ask("C13", req)
-		if got != want {
+		// outside the domain (the specification panics) the property is silent: which panic it is does
+		// not matter, and a call that returns instead of panicking only breaks the correspondence
+		pn := func(x string) string {
+			if strings.HasPrefix(x, "PANIC") {
+				return "PANIC"
+			}
+			return x
+		}
+		if pn(got) == "PANIC" && pn(want) == "PANIC" && got != want {
+			c.Count("out_of_domain_panic_kind_differs")
+			got, model = want, pn(model)
+			if model == "PANIC" {
+				model = want
+			}
+		}
+		if got != want && pn(want) == "PANIC" {
+			corrBad = fmt.Sprintf("%s returned %s on an input outside its domain, where the model and the Go-side specification panic (%s)", cs.Fn, got, want)
+		} else if got != want {
 			propBad = fmt.Sprintf("%s returned %s, its List specification gives %s (model: %s)", cs.Fn, got, want, model)
 		} else if got != model {
 			corrBad = fmt.Sprintf("%s returned %s (= the Go-side specification), the model says %s", cs.Fn, got, model)
